@@ -122,6 +122,8 @@ def build(cfg):
     if pb:
         m.setPBMParameters(cMin=pb[0], cMax=pb[1], bins=pb[2], minBins=pb[3], maxBins=pb[4], adaptive=pb[5])
     m.setPSDrecording(True)
+    if cfg.get("beta"):
+        m.setBetaBinary(cfg["beta"])       # documented option: impingement rate computed as in multicomponent systems
     if cfg.get("constraints"):
         m.setConstraints(**cfg["constraints"])
     obs = Observer(m, cfg.get("cap", 1200))
@@ -259,6 +261,17 @@ def project(cfg, res):
              "finite": bool(all(np.all(np.isfinite(row[a])) for a in ATTRS)),
              "T": mk(float(row["temperature"])), "Tsched": cmp3(float(row["temperature"]), sched(cfg, t), rtol=1e-12),
              "newcall": (n - 1) in starts}
+        # --- the recorded equilibrium compositions (binary, scripted closure with a temperature dependent solvus): the temperature
+        #     they were computed at is recovered from xEqAlpha = xe(T*); it must lie within maxTempChange of the row's temperature
+        e["xeqfresh"] = True
+        if E == 1 and hasattr(th, "_pp") and hasattr(th, "xe") and not cfg.get("multi"):
+            for p_ in range(P):
+                se_ = float(th._pp(m.phases[p_], "se"))
+                xa = float(np.atleast_1d(row["xEqAlpha"][p_])[0])
+                if se_ != 0.0 and xa > 0:
+                    tstar = float(th.T0) + (xa - float(th._pp(m.phases[p_], "xe0"))) / se_
+                    if abs(tstar - float(row["temperature"])) > maxdT * (1 + 1e-9) + 1e-6:
+                        e["xeqfresh"] = False
         # --- lookup table builds observed during this step (binary): list of [phase index, milli-kelvin, full?]
         built = []
         if hasattr(th, "lookupT"):
